@@ -1277,8 +1277,15 @@ namespace
     value append_array_array(runtime& runtime, value::cref left, value::cref right)
     {
         auto arr = left.data<d_array>();
-        auto r = right.data<d_array>();
-        arr->insert(arr->end(), r->begin(), r->end());
+        // take the elements by value: right may be the very array that is appended to
+        auto r = right.data<d_array>()->value();
+        auto oldsize = arr->size();
+        arr->insert(arr->end(), r.begin(), r.end());
+        if (!arr->recursion_test())
+        {
+            arr->erase(arr->begin() + oldsize, arr->end());
+            runtime.__logmsg(err::ArrayRecursion(runtime.context_active().current_frame().diag_info_from_position()));
+        }
         return {};
     }
     value arrayintersect_array_array(runtime& runtime, value::cref left, value::cref right)
